@@ -25,6 +25,7 @@ RULE = ("seeded datasets (0-4 dims; int/float/complex/bool/str variables on subs
         "x file names with / without extension (and with a non-extension dot) x chunks {None, int, dict} x entry point "
         "(save_ds/load_ds, save_merge_ds twice - also with a second save that adds fractional labels to an integer axis or longer labels to a string axis -, a narrow stored axis widened by the second save, loads with create_new=True -, Harvester add_ds/delete_ds incl. backup=True); second merges giving precedence to stored (complex) data; names given as pathlib.Path objects; megabyte datasets saved, loaded, saved over (also with the same size and time stamp) and re-loaded; attributes compared after a first save_merge_ds; distinct by dataset spec; non-trivial when "
         "the dataset has at least one variable with >= 1 dimension")
+RULE += '; datasets without any data variable (coordinates / attributes only); the same name saved over and loaded again right after a default load'
 ASSUMPTIONS = [
     "netcdf4 and zarr are not importable here and are not exercised",
     "attribute equality is up to numpy-scalar/array vs python scalar/list spelling; str variables may come back as object dtype",
